@@ -108,9 +108,11 @@ func (c07) Run(c *wk.Case) {
 		switch c.Rng.IntN(4) {
 		case 3:
 			// a map result is looked into by key as well as listed (both views must describe the same map)
-			k := []string{"z", "k0", "k1", "a", "other", "new"}[c.Rng.IntN(6)]
-			uses = []*ref.Node{guard(ref.Method(r, "isAvail", ref.Str(k))), guard(ref.Method(r, "isAvail", ref.Str("k0"), ref.Str(k))), guard(ref.Method(r, "get", ref.Str(k))), guard(ref.Bin("~", ref.Str(k), r)),
-				guard(ref.Method(ref.Method(r, "put", ref.Str(k), ref.Int(5)), "size")), guard(ref.Method(r, "size")), guard(ref.Method(ref.Method(r, "list"), "size"))}
+			uses = []*ref.Node{guard(ref.Method(r, "size")), guard(ref.Method(ref.Method(r, "list"), "size"))}
+			for _, k := range []string{"zz", "k0", "k1", "k2", "n1", "other", "", "a b"} {
+				uses = append(uses, guard(ref.Method(r, "isAvail", ref.Str(k))), guard(ref.Method(r, "isAvail", ref.Str("k0"), ref.Str(k))), guard(ref.Method(r, "get", ref.Str(k))), guard(ref.Bin("~", ref.Str(k), r)),
+					guard(ref.Method(ref.Method(r, "put", ref.Str(k), ref.Int(5)), "size")))
+			}
 		case 0:
 			uses = []*ref.Node{guard(ref.Method(r, "string")), guard(ref.Method(r, "string"))}
 		case 1:
